@@ -9,9 +9,12 @@ import gen_lib as GL
 NS = "EngineModel.Properties.C15CratesV2."
 LEAN_MODULES = ["Properties.C15CratesV2"]
 THEOREMS = [NS + t for t in [
-    "v2c_C15_no_ub", "v2c_C15_reachable_no_ub", "v2c_C15_walk_terminates", "v2c_C15_view_terminates",
+    "v2c_C15_no_ub", "v2c_C15_reachable_no_ub", "v2c_C15_cyclic_table_counterexample",
+    "v2c_C15_guard_dropped_counterexample", "v2c_C15_walk_terminates", "v2c_C15_view_terminates",
     "v2c_C15_queries_no_ub", "v2c_C15_ordered_queries_no_ub", "v2c_C15_reachable_queries_no_ub",
-    "v2c_C15_table_level_counterexample", "v2c_C15_stale_crate", "v2c_C15_nonexistent_args"]]
+    "v2c_C15_all_calls_no_ub",
+    "v2c_C15_table_level_counterexample", "v2c_C15_stale_crate", "v2c_C15_stale_crate_reachable",
+    "v2c_C15_nonexistent_args"]]
 ASSUMPTIONS = [
     "crates 2.x: undefined-behaviour sources made explicit: the missing-tail dereference of sort_ids / get_for_list "
     "(oob_read, inside the model Db/Chain.lean), the unbounded do-while of the same functions and the recursive view "
@@ -88,8 +91,11 @@ def adversarial(rng, uid, crates, tracks):
                         "children", "tracks", "descendants"])
         return "crate.q %s %s" % (c, q)
     if k < 0.93:
-        return "db.q " + rng.choice(["crates", "root_crates", "tracks", "crate_by_id %d" % rng.choice(IDS),
-                                     "crates_by_name " + nm, "root_by_name " + nm, "root_crates"])
+        return rng.choice(["db.q crates", "db.q root_crates", "db.q tracks", "db.q crate_by_id %d" % rng.choice(IDS),
+                           "db.q crates_by_name " + nm, "db.q root_by_name " + nm, "db.q root_crates",
+                           "db.q track_by_id %d" % rng.choice(IDS), "c15.crate_db %s" % c, "c15.handles %s %s" % (c, t),
+                           "c15.add_tracks %s %s" % (c, " ".join(rng.sample(tracks, min(len(tracks), rng.choice([0, 1, 2, 3])))))]
+                          + K.DB_CONST[:rng.choice([0, 4])])
     if k < 0.98:
         return "get %s %s" % (t, rng.choice(["valid", "id", "copy"]))
     v = "g%d" % uid
@@ -131,7 +137,7 @@ def tie(ctx):
             hid += 1
             scripts.append(gen_script(rng, s, hid, nadv))
     res = K.run_pair(scripts)
-    j = K.judge(res, "crates_v2", "v2", lambda s: PREFIX, stale_of, opkey)
+    j = K.judge(res, "crates_v2", "v2", lambda s: PREFIX, stale_of, opkey, defined_only=K.const_query)
     return {"ok": j["ok"], "evaluations": j["evaluations"],
             "distinct_nontrivial": j["distinct"],
             "rule": "crates 2.x: scripts of %d adversarial calls (names empty / ';' / 300 bytes / UTF-8, create_*_after with "
